@@ -2,6 +2,765 @@
 
 package main
 
-import "github.com/hashicorp/consul/internal/verifharness/hx"
+// Part 2 of the C18 harness: concurrent histories against the real inmem.Backend with the real
+// EventPublisher goroutine running (the binary is built with -race). Every operation records a call and
+// a return stamp from one atomic counter plus its result; the whole history goes to the Lean model, which
+// must find a linearization for the sequential specification and check every watcher's stream against it.
+// Writers are excluded from running concurrently with Restore (as the Raft FSM does); readers, listers
+// and watchers are not.
 
-func concurrentPart(run *hx.Run) {}
+import (
+	"context"
+	"errors"
+	"fmt"
+	"runtime"
+	"sort"
+	"strconv"
+	"strings"
+	"sync"
+	"sync/atomic"
+	"time"
+
+	"google.golang.org/protobuf/proto"
+
+	"github.com/hashicorp/consul/internal/storage"
+	"github.com/hashicorp/consul/internal/storage/inmem"
+	"github.com/hashicorp/consul/internal/verifharness/hx"
+	"github.com/hashicorp/consul/proto-public/pbresource"
+)
+
+type hop struct {
+	tid       int
+	call, ret int64
+	line      string // "<kind> <args…> <result…>"
+	// for the monitors
+	kind      string
+	presented string
+	key       string
+	ok        bool
+	epoch     int
+	stored    *pbresource.Resource
+	read      *pbresource.Resource
+}
+
+type sev struct {
+	kind byte // 'u' upsert, 'x' delete, 'e' end of snapshot, 'c' closed
+	res  *pbresource.Resource
+	// read made right after the event was received (watcher threads only)
+	readDone  bool
+	readFound *pbresource.Resource
+}
+
+func (e sev) enc() string {
+	switch e.kind {
+	case 'u':
+		return "u:" + encRes(e.res)
+	case 'x':
+		return "x:" + encRes(e.res)
+	case 'e':
+		return "e"
+	}
+	return "c"
+}
+
+type cwatch struct {
+	q         query
+	call, ret int64
+	epoch0    int
+	epoch1    int
+	evs       []sev
+	complete  bool
+	closedBy  string
+}
+
+type chist struct {
+	run    *hx.Run
+	be     *inmem.Backend
+	store  *inmem.Store
+	clock  atomic.Int64
+	uniq   atomic.Int64
+	epoch  atomic.Int64
+	gate   sync.RWMutex // writers RLock, restore Lock
+	stop   atomic.Bool  // publisher is quiescent: watchers drain what is buffered and leave
+	mu     sync.Mutex
+	ops    []hop
+	ws     []*cwatch
+	obs    []sev // commit order as seen by the observer(s), duplicates removed
+	obsMu  sync.Mutex
+	obsSet map[string]bool
+	obsGen int
+}
+
+var concType = &pbresource.Type{Group: "demo", GroupVersion: "v1", Kind: "artist"}
+
+func (h *chist) now() int64 { return h.clock.Add(1) }
+
+func (h *chist) add(o hop) {
+	h.mu.Lock()
+	h.ops = append(h.ops, o)
+	h.mu.Unlock()
+}
+
+type keyInfo struct {
+	uid, version string
+	older        []string
+}
+
+type cthread struct {
+	h    *chist
+	tid  int
+	r    *hx.RNG
+	keys []*pbresource.ID // ids without uid
+	seen map[string]*keyInfo
+	nUid int
+}
+
+func (t *cthread) info(id *pbresource.ID) *keyInfo {
+	k := resKey(id)
+	if t.seen[k] == nil {
+		t.seen[k] = &keyInfo{}
+	}
+	return t.seen[k]
+}
+
+func (t *cthread) learn(r *pbresource.Resource) {
+	ki := t.info(r.Id)
+	if ki.version != "" && ki.version != r.Version {
+		ki.older = append(ki.older, ki.version)
+	}
+	ki.uid, ki.version = r.Id.Uid, r.Version
+}
+
+func (t *cthread) pickID() *pbresource.ID {
+	id := clone(hx.Pick(t.r, t.keys))
+	ki := t.info(id)
+	switch {
+	case ki.uid != "" && t.r.Chance(80):
+		id.Uid = ki.uid
+	case t.r.Chance(50):
+		id.Uid = hx.Pick(t.r, []string{"u1", "u2"})
+	default:
+		t.nUid++
+		id.Uid = fmt.Sprintf("t%dn%d", t.tid, t.nUid)
+	}
+	return id
+}
+
+func (t *cthread) pickVersion(ki *keyInfo) string {
+	n := t.r.Intn(100)
+	switch {
+	case ki.version != "" && n < 65:
+		return ki.version
+	case n < 85:
+		return ""
+	case len(ki.older) > 0 && n < 93:
+		return hx.Pick(t.r, ki.older)
+	case ki.version != "":
+		if v, err := strconv.Atoi(ki.version); err == nil {
+			return strconv.Itoa(v + 1 + t.r.Intn(2))
+		}
+	}
+	return hx.Pick(t.r, []string{"0", "x", "1"})
+}
+
+func (t *cthread) step() {
+	h := t.h
+	if t.r.Chance(25) {
+		runtime.Gosched()
+	}
+	n := t.r.Intn(100)
+	switch {
+	case n < 38: // write
+		id := t.pickID()
+		ki := t.info(id)
+		res := &pbresource.Resource{Id: id, Generation: strconv.FormatInt(h.uniq.Add(1), 10), Version: t.pickVersion(ki)}
+		if t.r.Chance(25) {
+			o := clone(t.keys[0])
+			o.Uid = "u1"
+			res.Owner = o
+		}
+		h.gate.RLock()
+		ep := int(h.epoch.Load())
+		c := h.now()
+		stored, err := h.be.WriteCAS(bg, clone(res))
+		r := h.now()
+		h.gate.RUnlock()
+		out := errEnum(err)
+		logged := res
+		if err == nil {
+			logged = stored
+			t.learn(stored)
+		}
+		h.add(hop{tid: t.tid, call: c, ret: r, kind: "w", presented: res.Version, key: resKey(id), ok: err == nil, epoch: ep, stored: stored,
+			line: fmt.Sprintf("w %s %s %s", encRes(logged), hx.EncS(res.Version), out)})
+		h.run.Tag("conc:write-" + out)
+	case n < 53: // delete
+		id := t.pickID()
+		ki := t.info(id)
+		v := t.pickVersion(ki)
+		h.gate.RLock()
+		ep := int(h.epoch.Load())
+		c := h.now()
+		err := h.be.DeleteCAS(bg, clone(id), v)
+		r := h.now()
+		h.gate.RUnlock()
+		out := errEnum(err)
+		h.add(hop{tid: t.tid, call: c, ret: r, kind: "d", presented: v, key: resKey(id), ok: err == nil, epoch: ep,
+			line: fmt.Sprintf("d %s %s %s", encID(id), hx.EncS(v), out)})
+		h.run.Tag("conc:delete-" + out)
+	case n < 80: // read
+		id := t.pickID()
+		if t.r.Chance(50) {
+			id.Uid = ""
+		}
+		if t.r.Chance(8) {
+			id.Type.GroupVersion = "v2"
+		}
+		c := h.now()
+		res, err := h.be.Read(bg, storage.EventualConsistency, clone(id))
+		r := h.now()
+		var mm storage.GroupVersionMismatchError
+		var out string
+		switch {
+		case err == nil:
+			out = "found " + encRes(res)
+			t.learn(res)
+		case errors.As(err, &mm):
+			out = "gvmismatch " + encRes(mm.Stored)
+			t.learn(mm.Stored)
+			res = mm.Stored
+		case errors.Is(err, storage.ErrNotFound):
+			out = "notfound"
+		default:
+			out = "err"
+		}
+		h.add(hop{tid: t.tid, call: c, ret: r, kind: "r", key: resKey(id), read: res, line: fmt.Sprintf("r %s %s", encID(id), out)})
+		h.run.Tag("conc:read-" + strings.SplitN(out, " ", 2)[0])
+	case n < 93: // list
+		q := query{g: concType.Group, k: concType.Kind, part: hx.Pick(t.r, []string{"default", "p1", "*"}), ns: hx.Pick(t.r, []string{"default", "*"})}
+		if t.r.Chance(30) {
+			q.pfx = "a"
+		}
+		c := h.now()
+		rs, err := h.be.List(bg, storage.EventualConsistency, q.typ(), q.ten(), q.pfx)
+		r := h.now()
+		out := encRows(rs)
+		if err != nil {
+			out = "err"
+		}
+		for _, x := range rs {
+			t.learn(x)
+		}
+		h.add(hop{tid: t.tid, call: c, ret: r, kind: "l", line: fmt.Sprintf("l %s %s", q.enc(), out)})
+		h.run.Tag("conc:list")
+	default: // list by owner
+		o := clone(t.keys[0])
+		o.Uid = hx.Pick(t.r, []string{"u1", "u2"})
+		c := h.now()
+		rs, err := h.be.ListByOwner(bg, o)
+		r := h.now()
+		out := encRows(rs)
+		if err != nil {
+			out = "err"
+		}
+		h.add(hop{tid: t.tid, call: c, ret: r, kind: "lo", line: fmt.Sprintf("lo %s %s", encID(o), out)})
+		h.run.Tag("conc:list-by-owner")
+	}
+}
+
+// restore (exclusive with writers): snapshot the store, optionally drop a row, restore it with renumbered
+// payloads, then re-open the observer so that the commit order keeps being recorded.
+func (h *chist) restore(tid int, r *hx.RNG, snap []*pbresource.Resource) {
+	h.gate.Lock()
+	defer h.gate.Unlock()
+	var rs []*pbresource.Resource
+	for _, x := range snap {
+		y := clone(x)
+		y.Generation = strconv.FormatInt(h.uniq.Add(1), 10)
+		rs = append(rs, y)
+	}
+	c := h.now()
+	rst, err := h.store.Restore()
+	if err != nil {
+		panic(err)
+	}
+	for _, x := range rs {
+		if err := rst.Apply(clone(x)); err != nil {
+			panic(err)
+		}
+	}
+	rst.Commit()
+	rt := h.now()
+	h.epoch.Add(1)
+	h.add(hop{tid: tid, call: c, ret: rt, kind: "restore", line: "restore " + encRows(rs)})
+	h.run.Tag("conc:restore")
+	h.startObserver()
+}
+
+func (h *chist) snapshot() []*pbresource.Resource {
+	sn, err := h.store.Snapshot()
+	if err != nil {
+		panic(err)
+	}
+	var rs []*pbresource.Resource
+	for x := sn.Next(); x != nil; x = sn.Next() {
+		rs = append(rs, x)
+	}
+	return rs
+}
+
+// startObserver opens a wildcard watch and records every event after its snapshot, once.
+func (h *chist) startObserver() {
+	w, err := h.store.WatchList(storage.UnversionedTypeFrom(concType), &pbresource.Tenancy{Partition: "*", Namespace: "*"}, "")
+	if err != nil {
+		panic(err)
+	}
+	h.obsMu.Lock()
+	h.obsGen++
+	h.obsMu.Unlock()
+	go func() {
+		defer w.Close()
+		eos := false
+		for {
+			if h.stop.Load() && w.VerifC18WouldBlock() {
+				return
+			}
+			ctx, cancel := context.WithTimeout(bg, 20*time.Millisecond)
+			ev, err := w.Next(ctx)
+			cancel()
+			if err != nil {
+				if errors.Is(err, context.DeadlineExceeded) {
+					continue
+				}
+				return // closed by a restore: the restoring thread starts a new observer
+			}
+			switch {
+			case ev.GetEndOfSnapshot() != nil:
+				eos = true
+			case !eos:
+			case ev.GetUpsert() != nil:
+				h.observe(sev{kind: 'u', res: ev.GetUpsert().Resource})
+			case ev.GetDelete() != nil:
+				h.observe(sev{kind: 'x', res: ev.GetDelete().Resource})
+			}
+		}
+	}()
+}
+
+func (h *chist) observe(e sev) {
+	k := evKey(e.res, e.kind == 'x')
+	h.obsMu.Lock()
+	if !h.obsSet[k] {
+		h.obsSet[k] = true
+		h.obs = append(h.obs, e)
+	}
+	h.obsMu.Unlock()
+}
+
+func (h *chist) observed(k string) bool {
+	h.obsMu.Lock()
+	defer h.obsMu.Unlock()
+	return h.obsSet[k]
+}
+
+// watcher thread: open after a while, receive, read after every event; maybe close early.
+func (h *chist) watcher(tid int, r *hx.RNG, wg *sync.WaitGroup) {
+	defer wg.Done()
+	for i := r.Intn(200); i > 0; i-- {
+		runtime.Gosched()
+	}
+	q := query{g: concType.Group, k: concType.Kind, part: hx.Pick(r, []string{"default", "p1", "*"}), ns: hx.Pick(r, []string{"default", "*"})}
+	if r.Chance(25) {
+		q.pfx = "a"
+	}
+	cw := &cwatch{q: q}
+	cw.epoch0 = int(h.epoch.Load())
+	cw.call = h.now()
+	w, err := h.store.WatchList(q.typ(), q.ten(), q.pfx)
+	cw.ret = h.now()
+	cw.epoch1 = int(h.epoch.Load())
+	if err != nil {
+		panic(err)
+	}
+	defer w.Close()
+	h.mu.Lock()
+	h.ws = append(h.ws, cw)
+	h.mu.Unlock()
+	limit := -1
+	if r.Chance(20) {
+		limit = 1 + r.Intn(6)
+	}
+	for {
+		if limit == 0 {
+			cw.closedBy = "limit"
+			h.run.Tag("conc:watch-closed-early")
+			return
+		}
+		if h.stop.Load() && w.VerifC18WouldBlock() {
+			cw.complete = true
+			return
+		}
+		ctx, cancel := context.WithTimeout(bg, 20*time.Millisecond)
+		ev, err := w.Next(ctx)
+		cancel()
+		switch {
+		case err == nil:
+		case errors.Is(err, context.DeadlineExceeded):
+			continue
+		case errors.Is(err, storage.ErrWatchClosed):
+			cw.evs = append(cw.evs, sev{kind: 'c'})
+			cw.closedBy = "restore"
+			h.run.Tag("conc:watch-force-closed")
+			return
+		default:
+			panic(err)
+		}
+		limit--
+		var e sev
+		switch {
+		case ev.GetEndOfSnapshot() != nil:
+			e = sev{kind: 'e'}
+		case ev.GetUpsert() != nil:
+			e = sev{kind: 'u', res: ev.GetUpsert().Resource}
+		case ev.GetDelete() != nil:
+			e = sev{kind: 'x', res: ev.GetDelete().Resource}
+		}
+		if e.res != nil {
+			id := clone(e.res.Id)
+			id.Uid = ""
+			got, err := h.store.Read(id)
+			var mm storage.GroupVersionMismatchError
+			switch {
+			case err == nil:
+				e.readFound = got
+			case errors.As(err, &mm):
+				e.readFound = mm.Stored
+			}
+			e.readDone = true
+		}
+		cw.evs = append(cw.evs, e)
+	}
+}
+
+func concurrentHistory(run *hx.Run, r *hx.RNG, idx int) {
+	be, err := inmem.NewBackend()
+	if err != nil {
+		panic(err)
+	}
+	ctx, cancel := context.WithCancel(bg)
+	defer cancel()
+	go be.Run(ctx)
+	h := &chist{run: run, be: be, store: be.VerifC18Store(), obsSet: map[string]bool{}}
+	h.startObserver()
+
+	nThreads := 2 + r.Intn(5)
+	total := 12 + r.Intn(28)
+	nKeys := 1 + r.Intn(3)
+	var keys []*pbresource.ID
+	pool := []*pbresource.ID{
+		{Type: concType, Tenancy: &pbresource.Tenancy{Partition: "default", Namespace: "default"}, Name: "a"},
+		{Type: concType, Tenancy: &pbresource.Tenancy{Partition: "p1", Namespace: "default"}, Name: "ab"},
+		{Type: concType, Tenancy: &pbresource.Tenancy{Partition: "default", Namespace: "default"}, Name: "b"},
+	}
+	keys = pool[:nKeys]
+	withRestore := r.Chance(15)
+	nWatchers := r.Intn(3)
+	run.Tag(fmt.Sprintf("conc:threads=%d", nThreads))
+	run.Tag(fmt.Sprintf("conc:keys=%d", nKeys))
+
+	var wg, wwg sync.WaitGroup
+	start := make(chan struct{})
+	for t := 0; t < nThreads; t++ {
+		th := &cthread{h: h, tid: t, r: r.Fork(uint64(t + 1)), keys: keys, seen: map[string]*keyInfo{}}
+		n := total / nThreads
+		doRestore := withRestore && t == 0
+		wg.Add(1)
+		go func() {
+			defer wg.Done()
+			<-start
+			var snap []*pbresource.Resource
+			for i := 0; i < n; i++ {
+				th.step()
+				if doRestore && i == n/3 {
+					snap = h.snapshot()
+				}
+				if doRestore && i == (2*n)/3 {
+					h.restore(th.tid, th.r, snap)
+				}
+			}
+		}()
+	}
+	for k := 0; k < nWatchers; k++ {
+		wwg.Add(1)
+		go h.watcher(100+k, r.Fork(uint64(1000+k)), &wwg)
+	}
+	close(start)
+	wg.Wait()
+
+	// sentinel: once the observer has seen it, every earlier commit has been dispatched to every buffer
+	sid := &pbresource.ID{Type: concType, Tenancy: &pbresource.Tenancy{Partition: "default", Namespace: "default"}, Name: "zz", Uid: "s"}
+	sres := &pbresource.Resource{Id: sid, Generation: strconv.FormatInt(h.uniq.Add(1), 10)}
+	c := h.now()
+	stored, err := be.WriteCAS(bg, sres)
+	rt := h.now()
+	if err != nil {
+		panic(err)
+	}
+	h.add(hop{tid: 99, call: c, ret: rt, kind: "w", key: resKey(sid), ok: true, stored: stored, epoch: int(h.epoch.Load()),
+		line: fmt.Sprintf("w %s %s ok", encRes(stored), hx.EncS(""))})
+	quiescent := false
+	for deadline := time.Now().Add(10 * time.Second); time.Now().Before(deadline); {
+		if h.observed(evKey(stored, false)) {
+			quiescent = true
+			break
+		}
+		time.Sleep(200 * time.Microsecond)
+	}
+	if !quiescent {
+		run.Tag("conc:publisher-not-quiescent")
+	}
+	h.stop.Store(true)
+	wwg.Wait()
+	// final listing pins the final state
+	fq := query{g: concType.Group, k: concType.Kind, part: "*", ns: "*"}
+	c = h.now()
+	rs, _ := be.List(bg, storage.EventualConsistency, fq.typ(), fq.ten(), "")
+	rt = h.now()
+	h.add(hop{tid: 99, call: c, ret: rt, kind: "l", line: fmt.Sprintf("l %s %s", fq.enc(), encRows(rs))})
+	time.Sleep(50 * time.Microsecond)
+
+	// ---- emit
+	sort.Slice(h.ops, func(i, j int) bool { return h.ops[i].call < h.ops[j].call })
+	var lines []string
+	emit := func(op string) { lines = append(lines, op); run.Line(op, "ok") }
+	emit("hbegin")
+	for _, o := range h.ops {
+		emit(fmt.Sprintf("hop %d %d %d %s", o.tid, o.call, o.ret, o.line))
+	}
+	h.obsMu.Lock()
+	obs := append([]sev(nil), h.obs...)
+	h.obsMu.Unlock()
+	hint := make([]string, len(obs))
+	for i, e := range obs {
+		hint[i] = e.enc()
+	}
+	emit("hhint " + hx.EncList(hint))
+	for _, cw := range h.ws {
+		evs := make([]string, len(cw.evs))
+		for i, e := range cw.evs {
+			evs[i] = e.enc()
+		}
+		emit(fmt.Sprintf("hwatch %d %d %s %s %s", cw.call, cw.ret, hx.EncBool(cw.complete && quiescent), cw.q.enc(), hx.EncList(evs)))
+	}
+	lines = append(lines, "hcheck")
+	run.Line("hcheck", fmt.Sprintf("lin=ok n=%d watches=ok", len(h.ops)))
+
+	viol := func(sig, desc string) {
+		if sigCount[sig] < 3 {
+			run.Violate(sig, desc, lines)
+		} else {
+			run.Tag("violation:" + sig)
+		}
+		sigCount[sig]++
+	}
+	h.monitors(obs, viol)
+	run.Case(strings.Join(lines, "\n"), len(h.ops) > 8)
+}
+
+// monitors restate the property on the recorded history, using only the observer's commit order.
+func (h *chist) monitors(obs []sev, viol func(sig, desc string)) {
+	seq := map[string]int{}
+	for i, e := range obs {
+		seq[evKey(e.res, e.kind == 'x')] = i + 1
+	}
+	// payload -> epoch in which the resource version was created (write op or restore)
+	payloadEpoch := map[string]int{}
+	written := map[string]bool{}
+	for _, o := range h.ops {
+		if o.kind == "w" && o.ok {
+			payloadEpoch[o.stored.Generation] = o.epoch
+			written[evKey(o.stored, false)] = true
+		}
+	}
+	ep := 0
+	for _, o := range h.ops { // ops are sorted by call stamp; restores are exclusive with writers
+		if o.kind == "restore" {
+			ep++
+			for _, tok := range strings.Split(strings.TrimPrefix(o.line, "restore "), ",") {
+				f := strings.Split(tok, "|")
+				if len(f) == 4 {
+					payloadEpoch[f[3]] = ep
+				}
+			}
+		}
+	}
+	// (1) at most one committed operation per (epoch, resource, presented version)
+	count := map[string]int{}
+	for _, o := range h.ops {
+		if o.kind == "w" && o.ok && o.presented != "" {
+			count[fmt.Sprintf("%d|%s|%s", o.epoch, o.key, o.presented)]++
+		}
+	}
+	for _, e := range obs {
+		if e.kind == 'x' {
+			count[fmt.Sprintf("%d|%s|%s", payloadEpoch[e.res.Generation], resKey(e.res.Id), e.res.Version)]++
+		}
+	}
+	for k, n := range count {
+		if n > 1 {
+			viol("cas:two-successes-same-version", "two committed operations presented the same version of one resource: "+strings.ReplaceAll(k, "\x00", "/"))
+			break
+		}
+	}
+	// every successful write must show up in the commit order exactly once; every delete event needs a deleter
+	for _, o := range h.ops {
+		if o.kind == "w" && o.ok && seq[evKey(o.stored, false)] == 0 {
+			viol("watch:missing-event", "a successful write never reached the observer although the publisher is quiescent")
+			break
+		}
+	}
+	for _, e := range obs {
+		if e.kind == 'u' && !written[evKey(e.res, false)] {
+			viol("watch:event-never-committed", "the observer received an upsert that no successful write produced")
+			break
+		}
+		if e.kind == 'x' {
+			found := false
+			for _, o := range h.ops {
+				if o.kind == "d" && o.ok && o.key == resKey(e.res.Id) && o.presented == e.res.Version {
+					found = true
+					break
+				}
+			}
+			if !found {
+				viol("watch:event-never-committed", "the observer received a delete that no successful DeleteCAS with that version explains")
+				break
+			}
+		}
+	}
+	// (2) uid constant within a lifetime: consecutive upserts of one resource without a delete (or restore) in between
+	lastUp := map[string]*pbresource.Resource{}
+	for _, e := range obs {
+		k := resKey(e.res.Id)
+		if e.kind == 'x' {
+			if p := lastUp[k]; p != nil && payloadEpoch[p.Generation] == payloadEpoch[e.res.Generation] && !proto.Equal(p, e.res) {
+				viol("watch:delete-event-not-last-version", "a delete event does not carry the last committed version of the resource")
+			}
+			delete(lastUp, k)
+			continue
+		}
+		if p := lastUp[k]; p != nil && payloadEpoch[p.Generation] == payloadEpoch[e.res.Generation] && p.Id.Uid != e.res.Id.Uid {
+			viol("uid:changed-within-lifetime", "two successive versions of one resource carry different uids")
+		}
+		lastUp[k] = e.res
+	}
+	// (3) watcher streams
+	for _, cw := range h.ws {
+		eos := false
+		last, lastIdx := 0, -1
+		bound := 0 // newest commit the snapshot provably contains
+		var delivered []int
+		for i, e := range cw.evs {
+			switch {
+			case e.kind == 'e':
+				eos = true
+				continue
+			case e.kind == 'c':
+				continue
+			}
+			if !cw.q.matches(e.res) {
+				viol("watch:event-outside-query", "a watcher received an event for a resource its query does not match")
+			}
+			s := seq[evKey(e.res, e.kind == 'x')]
+			if !eos {
+				if s > bound {
+					bound = s
+				}
+				continue
+			}
+			if s == 0 {
+				if _, restored := payloadEpoch[e.res.Generation]; !restored || e.kind == 'u' {
+					viol("watch:event-never-committed", "a watcher received an event that corresponds to no committed operation")
+				}
+				continue
+			}
+			if s <= last {
+				viol("watch:events-out-of-order", fmt.Sprintf("watcher events %d and %d are not in commit order", lastIdx, i))
+			}
+			switch {
+			case cw.epoch0 == cw.epoch1 && payloadEpoch[e.res.Generation] < cw.epoch0:
+				viol("watch:pre-restore-event-after-snapshot", "an event committed before a restore was delivered to a watcher opened after the restore")
+				h.run.Tag("conc:pre-restore-event")
+			case s <= bound:
+				viol("watch:stale-event-after-snapshot", "an event committed before the snapshot was taken was delivered after EndOfSnapshot (version regress)")
+				h.run.Tag("conc:stale-event")
+			}
+			last, lastIdx = s, i
+			delivered = append(delivered, s)
+			// (4) read after event
+			if e.readDone {
+				older := false
+				if e.readFound != nil {
+					rs := seq[evKey(e.readFound, false)]
+					_, known := payloadEpoch[e.readFound.Generation]
+					if rs != 0 && rs < s && resKey(e.readFound.Id) == resKey(e.res.Id) && payloadEpoch[e.readFound.Generation] >= payloadEpoch[e.res.Generation] {
+						older = true
+					}
+					if !known {
+						viol("read:never-written", "a read returned a resource version nobody wrote")
+					}
+				} else {
+					// not found: fine iff a delete of this resource was committed after the event, or a restore happened
+					later := false
+					for _, o := range obs[s:] {
+						if o.kind == 'x' && resKey(o.res.Id) == resKey(e.res.Id) {
+							later = true
+						}
+					}
+					if e.kind == 'x' || int(h.epoch.Load()) > payloadEpoch[e.res.Generation] {
+						later = true
+					}
+					older = !later
+				}
+				if older {
+					viol("watch:read-older-than-event", "a read made after receiving an event returned data older than the event")
+				}
+			}
+		}
+		// no gaps: between the first and the last delivered commit every matching commit was delivered
+		if len(delivered) > 0 {
+			want := 0
+			for s := delivered[0]; s <= delivered[len(delivered)-1]; s++ {
+				if cw.q.matches(obs[s-1].res) {
+					want++
+				}
+			}
+			if want != len(delivered) {
+				viol("watch:missing-event", "a watcher skipped a matching commit between two events it received")
+			}
+			if cw.complete && cw.closedBy == "" {
+				for s := delivered[len(delivered)-1] + 1; s <= len(obs); s++ {
+					if cw.q.matches(obs[s-1].res) {
+						viol("watch:missing-event", "an open watcher never received a matching commit although the publisher is quiescent")
+						break
+					}
+				}
+			}
+		}
+	}
+}
+
+func concurrentPart(run *hx.Run) {
+	n := run.Scale(150, 1700)
+	procs := []int{1, 2, 4, 16}
+	prev := runtime.GOMAXPROCS(0)
+	for i := 0; i < n; i++ {
+		if i%25 == 0 {
+			p := procs[(i/25)%len(procs)]
+			runtime.GOMAXPROCS(p)
+			run.Tag(fmt.Sprintf("conc:gomaxprocs=%d", p))
+		}
+		concurrentHistory(run, run.RNG.Fork(uint64(1_000_000+i)), i)
+	}
+	runtime.GOMAXPROCS(prev)
+}
